@@ -66,6 +66,11 @@ def build_object(ospec):
     for k, v in ospec.get("kw", {}).items():
         if k == "field_func" and isinstance(v, str):
             v = faults.CALLBACKS[v]
+        elif k == "field_func" and isinstance(v, dict):
+            # a stateful callable: functools.partial binding a mutable parameter dictionary
+            import functools
+
+            v = functools.partial(faults.cbp, params={"amp": float(v["partial_amp"]), "hist": []})
         kw[k] = v
     if ospec.get("pos") is not None:
         kw["position"] = ospec["pos"]
